@@ -189,9 +189,9 @@ func c09GenConfig(r *vlib.Rand, avoidWordPlusOne bool) *c09Config {
 
 func c09Budget(run *vlib.Run) time.Duration {
 	if run.Single() {
-		return 180 * time.Second
+		return 120 * time.Second
 	}
-	return 60 * time.Second
+	return 30 * time.Second
 }
 
 func TestVerifC09(t *testing.T) {
